@@ -256,6 +256,14 @@ def check(run: Run) -> None:
     my_len = [f for f in m.funcs.values() if f.parent_func is ld and f.name == "my_len"]
     ok = len(my_len) == 1 and my_len[0].node.returns is not None and ast.unparse(my_len[0].node.returns) == "int"
     reg = any(isinstance(n, ast.Assign) and isinstance(n.targets[0], ast.Subscript) and isinstance(n.targets[0].slice, ast.Constant) and n.targets[0].slice.value == "len" and "my_len" in ast.unparse(n.value) for n in own_nodes(ld))
+    if not reg:
+        # through a private registration helper: the record ("len", my_len, ..) is built, and stored in the table, there
+        from ..lib import call_events as _ce3
+
+        for e_ in _ce3(TermCtx(m, max_depth=1), ld, lambda n_: n_.endswith("FuncAdlFunction")):
+            a_ = [strip_sites(x_) for x_ in e_.args]
+            if len(a_) >= 2 and a_[0] == ("const", "len") and a_[1][0] == "global" and a_[1][1].endswith(".my_len"):
+                reg = reg or any(isinstance(n, ast.Assign) and isinstance(n.targets[0], ast.Subscript) and isinstance(n.targets[0].value, ast.Name) and n.targets[0].value.id == "_global_functions" for n in own_nodes(e_.owner))
     run.check(ok and reg, "C08.R3", ld, ld.node, "len is registered with return type int", "len is not registered as a function returning int")
     pm = m.find_func("process_method_call", in_module=mod)
     from ..lib import site_owner
